@@ -65,11 +65,11 @@ def src_fan_out(pout="FIRST_AVAILABLE", blocking=True, iat=(2, 2, 2, 2, 2, 2), c
 
 
 def comb_split(recipe=(1, 2), piat=(8, 8), iiat=(2, 2, 2, 2, 2), cpd=(4,), spd=(2,), cb=True, spb=True, T=200,
-               spout="FIRST_AVAILABLE", two_ing=False, caps=(2, 4, 2, 3)):
+               spout="FIRST_AVAILABLE", two_ing=False, caps=(2, 4, 2, 3), iiat2=None):
     nodes = [_n("source", blocking=True, iat=list(piat), kind="pallet"), _n("source", blocking=True, iat=list(iiat))]
     edges = [_e("buffer", 0, 2 + (1 if two_ing else 0), cap=caps[0]), _e("buffer", 1, 2 + (1 if two_ing else 0), cap=caps[1])]
     if two_ing:
-        nodes.append(_n("source", blocking=True, iat=list(iiat)))
+        nodes.append(_n("source", blocking=True, iat=list(iiat2 if iiat2 is not None else iiat)))
         edges.append(_e("buffer", 2, 3, cap=caps[1]))
     c = len(nodes)
     nodes.append(_n("combiner", recipe=list(recipe), pd=list(cpd), blocking=cb))
@@ -77,6 +77,15 @@ def comb_split(recipe=(1, 2), piat=(8, 8), iiat=(2, 2, 2, 2, 2), cpd=(4,), spd=(
     nodes += [_n("sink"), _n("sink")]
     edges += [_e("buffer", c, c + 1, cap=caps[2]), _e("buffer", c + 1, c + 2, cap=caps[3]), _e("buffer", c + 1, c + 3, cap=caps[3])]
     return {"Q": Q, "T": T, "family": "combiner-splitter", "expect": "valid", "drains": False, "nodes": nodes, "edges": edges}
+
+
+def pallet_split(mode="LIFO", piat=(1, 1, 1, 1, 1, 1), spd=(4,), cap=4, spb=True, T=160, spin="FIRST_AVAILABLE", delay=0):
+    """pallet source -> buffer (LIFO/FIFO) -> splitter -> buffer -> sink: the splitter reserves the next pallet
+    and holds the granted token while its single worker is busy"""
+    return {"Q": Q, "T": T, "family": "S(pallet)-B-Sp-B-K", "expect": "valid", "drains": True,
+            "nodes": [_n("source", blocking=True, iat=list(piat), kind="pallet"),
+                      _n("splitter", pd=list(spd), blocking=spb, policy_in=spin), _n("sink")],
+            "edges": [_e("buffer", 0, 1, cap=cap, mode=mode, delay=delay), _e("buffer", 1, 2, cap=3)]}
 
 
 def conveyor_line(etype="conveyor", acc=1, cap=3, slot=4, iat=(6, 6, 6), pd=(4,), T=160, sink_direct=False, sb=True):
@@ -156,9 +165,18 @@ def families(tier):
                                                      ["FIRST_AVAILABLE", "ROUND_ROBIN"]):
         C.append(comb_split(recipe=recipe, cb=cb, spb=spb, spout=spout))
     C.append(comb_split(recipe=(1, 2, 1), two_ing=True))
+    # one ingredient starves while the other one is waiting: the tokens of the gather-all batch fire out of list order
+    C.append(comb_split(recipe=(1, 1, 1), two_ing=True, piat=(2, 2, 2, 2), iiat=(9, 9, 9, 9), iiat2=(1, 1, 1, 1)))
+    C.append(comb_split(recipe=(1, 2, 1), two_ing=True, piat=(0, 6, 6), iiat=(7, 1, 7, 1, 7, 1), iiat2=(0, 0, 5, 5)))
+    C.append(comb_split(recipe=(1, 1, 2), two_ing=True, piat=(1, 1, 1), iiat=(10, 10, 10), iiat2=(0, 0, 0, 0, 0, 0)))
     C.append(comb_split(recipe=(1, 2), piat=(40,), iiat=(1, 1, 1, 1)))        # items long before the pallet
     C.append(comb_split(recipe=(1, 3), piat=(2, 2), iiat=(9, 9, 9, 9, 9, 9)))   # starving ingredient
     C.append(comb_split(recipe=(1, 2), cpd=(0,), spd=(0,), iiat=(0, 0, 0, 0), piat=(0, 0)))
+    for mode, spin, delay in itertools.product(["LIFO", "FIFO"], ["FIRST_AVAILABLE", "ROUND_ROBIN", 0], [0, 2]):
+        C.append(pallet_split(mode=mode, spin=spin, delay=delay))
+    C.append(pallet_split(mode="LIFO", piat=(0, 0, 0, 3, 0, 0), spd=(2, 5)))
+    C.append(line_sbmbk(k1={"mode": "LIFO"}, d1=0, c1=3, iat=(0, 0, 0, 2, 0, 0), pd=(3,), wc=1))
+    C.append(line_sbmbk(k1={"mode": "LIFO"}, d1=1, c1=3, iat=(1, 0, 1, 0, 1, 0), pd=(2, 4), wc=2, pin="ROUND_ROBIN"))
     # conveyors
     for etype, acc in itertools.product(["conveyor", "slotted"], [0, 1]):
         C.append(conveyor_line(etype, acc))
@@ -172,7 +190,7 @@ def families(tier):
 
 
 def random_config(rng, i):
-    kind = rng.choice(["sbk", "sbmbk", "sbmbk", "fanin", "fanout", "srcfan", "comb"])
+    kind = rng.choice(["sbk", "sbmbk", "sbmbk", "fanin", "fanout", "srcfan", "comb", "psplit"])
     iat = tuple(rng.choice([0, 1, 2, 3, 5, 8]) for _ in range(rng.randint(2, 8)))
     pd = tuple(rng.choice([0, 1, 2, 4, 7]) for _ in range(rng.randint(1, 3)))
     pol = lambda n: rng.choice(["FIRST_AVAILABLE", "ROUND_ROBIN", "RANDOM", rng.randrange(n),
@@ -209,8 +227,15 @@ def random_config(rng, i):
             iat = tuple(x or 1 for x in iat)
         c = src_fan_out(pout=pol(2), blocking=b, iat=iat, caps=(rng.randint(1, 2), rng.randint(1, 2)),
                         delays=(rng.choice([0, 4, 12]), rng.choice([0, 4, 12])), T=T)
+    elif kind == "psplit":
+        c = pallet_split(mode=rng.choice(["LIFO", "FIFO"]), piat=tuple(rng.choice([0, 1, 2, 4]) for _ in range(rng.randint(3, 7))),
+                         spd=(rng.choice([1, 3, 6]),), cap=rng.randint(2, 4), spb=rng.random() < 0.7, T=T,
+                         spin=rng.choice(["FIRST_AVAILABLE", "ROUND_ROBIN", 0]), delay=rng.choice([0, 0, 2]))
     else:
-        c = comb_split(recipe=(1, rng.randint(1, 3)), piat=tuple(rng.choice([0, 3, 8]) for _ in range(3)),
+        two = rng.random() < 0.4
+        c = comb_split(recipe=(1, rng.randint(1, 3)) if not two else (1, rng.randint(1, 2), rng.randint(1, 2)), two_ing=two,
+                       iiat2=tuple(rng.choice([0, 1, 4, 9]) for _ in range(6)) if two else None,
+                       piat=tuple(rng.choice([0, 3, 8]) for _ in range(3)),
                        iiat=tuple(rng.choice([0, 1, 2, 5]) for _ in range(7)), cpd=(rng.choice([0, 2, 5]),),
                        spd=(rng.choice([0, 1, 3]),), cb=rng.random() < 0.6, spb=rng.random() < 0.6, T=T,
                        spout=rng.choice(["FIRST_AVAILABLE", "ROUND_ROBIN", 0, 1]))
